@@ -173,6 +173,12 @@ var vfDefs = func(fkMode byte, prop string) []*vfTabDef {
 			{mode: 'k', cols: []string{"x"}},
 			{mode: 'i', cols: []string{"fk", "fk2"}, fkTable: "t2", fkCols: []string{"k", "k2"}, fkMode: schema.Block}}},
 	}
+	if prop == "C08" {
+		// a second table referring to t1's single-column key, through its own *key* (not an encoded index):
+		// the block check of a t1 row has to look into both, each with the key in that index's encoding
+		defs = append(defs, &vfTabDef{name: "t7", cols: []string{"k", "v"}, idxs: []vfIdxDef{
+			{mode: 'k', cols: []string{"k"}, fkTable: "t1", fkCols: []string{"k"}, fkMode: schema.Block}}})
+	}
 	if prop == "C07" {
 		// overlapping composite keys: two keys that share a column and neither contains the other, plus a unique index
 		// that shares a column with a key (the duplicate check of each must be made on its own)
@@ -519,6 +525,15 @@ func (s *vfSim) digestVia(tr vfIterTran) string {
 }
 
 // genRow produces a row for a table; payload identifies the writer
+// t1key is a value of t1's key domain: small integers; in the C08 profile also strings with embedded zero bytes
+// (a composite or non-unique index stores those escaped, a single-column key stores them as they are)
+func (s *vfSim) t1key(r *rand.Rand) string {
+	if s.p.prop == "C08" && r.IntN(4) == 0 {
+		return vfPackStr([]string{"a\x00", "a\x00\x00b", "\x00", "x\x00y"}[r.IntN(4)])
+	}
+	return vfPackInt(r.IntN(s.p.keys))
+}
+
 func (s *vfSim) genRow(r *rand.Rand, table, payload string) vfRow {
 	k := s.p.keys
 	switch table {
@@ -527,11 +542,13 @@ func (s *vfSim) genRow(r *rand.Rand, table, payload string) vfRow {
 		if r.IntN(3) != 0 {
 			u = vfPackInt(r.IntN(k/2 + 2))
 		}
-		return vfRow{vfPackInt(r.IntN(k)), vfPackInt(r.IntN(4)), u, vfPackStr(payload)}
+		return vfRow{s.t1key(r), vfPackInt(r.IntN(4)), u, vfPackStr(payload)}
+	case "t7":
+		return vfRow{s.t1key(r), vfPackStr(payload)}
 	case "t2":
 		fk := ""
 		if r.IntN(5) != 0 {
-			fk = vfPackInt(r.IntN(k))
+			fk = s.t1key(r)
 		}
 		return vfRow{vfPackInt(r.IntN(k + k/2)), fk, vfPackInt(r.IntN(3)), vfPackStr(payload)}
 	case "t3":
@@ -559,6 +576,9 @@ func (s *vfSim) genRow(r *rand.Rand, table, payload string) vfRow {
 func (s *vfSim) pickTable(r *rand.Rand) string {
 	if s.p.prop == "C07" && r.IntN(4) == 0 {
 		return "t6"
+	}
+	if s.p.prop == "C08" && r.IntN(8) == 0 {
+		return "t7"
 	}
 	if s.p.fkFocus {
 		switch n := r.IntN(100); {
